@@ -79,6 +79,11 @@ class G(object):
             for a in sorted(v.arches):
                 if r.random() < 0.8:
                     d[a] = "%s/%s/%s" % (v.uid, a, f)
+            # documented normalisations: paths of arches outside the variant's arch set and empty paths are not stored
+            if r.random() < 0.3:
+                d[r.choice([a for a in ARCHES + ["src"] if a not in v.arches])] = "%s/foreign/%s" % (v.uid, f)
+            if r.random() < 0.15 and v.arches:
+                d[sorted(v.arches)[0]] = ""
         return v
 
     def composeinfo(self, nvariants=None, layered=None, maxdepth=3):
@@ -150,20 +155,25 @@ class G(object):
         for v in r.sample(["Server", "Client", "Server-optional", "W"], r.randint(0, 3) if nvar is None else nvar):
             for a in r.sample(ARCHES, r.randint(1, 2)):
                 for i in range(r.randint(1, maximg)):
-                    im = self.image(m, path="%s/%s/iso/img%d-%d" % (v, a, i, r.randint(0, 10 ** 6)))
+                    # the same path may occur in different cells with different attributes (paths are distinct per cell only)
+                    pth = "%s/%s/iso/img%d-%d" % (v, a, i, r.randint(0, 10 ** 6)) if r.random() < 0.7 else "shared/iso/img%d" % i
+                    im = self.image(m, path=pth)
                     key = tuple(self.IM.identify_image(im)[:5]) + (im.unified, tuple(im.additional_variants))
                     if key in seen:
                         im.checksums = seen[key]
                     seen[key] = im.checksums
-                    try:
-                        m.add(v, a, im)
-                    except ValueError:
-                        pass
-                    if r.random() < 0.15:
+
+                    def put(v_, a_):
+                        # precondition of the property: distinct paths within one (variant, arch) cell
+                        if any(x.path == im.path for x in m.images.get(v_, {}).get(a_, ())):
+                            return
                         try:
-                            m.add(r.choice(["Server", "Other"]), r.choice(ARCHES), im)   # same object under several cells
+                            m.add(v_, a_, im)
                         except ValueError:
                             pass
+                    put(v, a)
+                    if r.random() < 0.15:
+                        put(r.choice(["Server", "Other"]), r.choice(ARCHES))   # same object under several cells
         return m
 
     # ---- rpms / modules / extra files ---------------------------------------------------------------------------
